@@ -153,10 +153,11 @@ type zzSendWorld struct {
 	ver    RegionVerID
 }
 
-func zzNewSendWorld(budgetMs int) *zzSendWorld {
+func zzNewSendWorld(budgetMs, nrep int) *zzSendWorld {
 	sw := &zzSendWorld{}
 	w := &zzWorld{}
 	w.pd = zzLayout(nil)
+	w.pd.regions[0].Peers = w.pd.regions[0].Peers[:nrep]
 	w.c = NewRegionCache(w.pd)
 	w.bo = retry.NewBackofferWithVars(context.Background(), budgetMs, nil)
 	r, err := newRegion(retry.NewBackofferWithVars(context.Background(), 2000, nil), w.c, w.pd.wrap(0))
@@ -268,7 +269,13 @@ func ZZ_C10_send_script() {
 	if zzBool("tiny_budget") {
 		budget = 1
 	}
-	sw := zzNewSendWorld(budget)
+	// a single-replica region runs out of candidates after one fault (the
+	// synthetic region error), a three-replica region has somewhere to go
+	nrep := 3
+	if zzBool("single_replica") {
+		nrep = 1
+	}
+	sw := zzNewSendWorld(budget, nrep)
 	defer sw.w.c.Close()
 	req, write := zzRequest(zzChoice("mode", 5))
 	sw.cl.script = zzScript(zzParam("c10script", 1))
@@ -284,7 +291,7 @@ func ZZ_C10_send_script_long() {
 	if zzParam("tier", 0) == 1 && zzBool("tiny_budget") { // the exhausted budget: thorough tier only (quick: ZZ_C10_send_script)
 		budget = 1
 	}
-	sw := zzNewSendWorld(budget)
+	sw := zzNewSendWorld(budget, 3)
 	defer sw.w.c.Close()
 	modes := [...]int{0, 3, 4}
 	req, write := zzRequest(modes[zzChoice("mode", 3)])
@@ -301,7 +308,7 @@ func ZZ_C10_send_script_long() {
 // read commands, with the request's start ts and stale flag; when validation
 // fails SendReqCtx returns that error and nothing is sent.
 func ZZ_C10_validate_read_ts() {
-	sw := zzNewSendWorld(2000)
+	sw := zzNewSendWorld(2000, 3)
 	defer sw.w.c.Close()
 	ts := zzU64("ts")
 	stale := zzBool("stale")
